@@ -20,7 +20,9 @@ PID = 'C11'
 RULE = ('single-operation buckets (each public operation family first, then up to 2 cheap instructions) and composition buckets from '
         'the concolic program generator; P in 2..3 with a different base point per direction (probe points 1..3), D in 1..7; forward '
         'buckets compare every register, reverse buckets the input adjoints.  Non-trivial = P >= 2 with pairwise different zeroth '
-        'coefficients in at least one input; distinct by descriptor hash')
+        'coefficients in at least one input; distinct by descriptor hash.  fwd:degenerate:* (some directions rank deficient / with repeated '
+        'eigenvalues; every case non-trivial), fwd:scales:* (each direction multiplied by its own power of two, ratios up to 2^54; non-trivial = '
+        'scales differ)')
 ASSUMPTIONS = [
     'relation (1) to 1e-12 relative to max(1, max|coefficients of the register|); relation (2) to the same tolerance (an information leak moves results by far more than 1e-12)',
     'base points satisfy every operation\'s preconditions with margin at all probe points (by construction)',
